@@ -39,7 +39,7 @@ CLAIM = {
             "model; library pumps are compared with an exact rational least-squares fit at 1e-9), np.sqrt and x**1.5 "
             "(inputs); the array code of _antiderivative is H-modelled (statements pinned by the translator). Library data are decimal, so library "
             "queries are compared at 1e-12 relative (monitor), exactness is shown on dyadic custom properties. "
-            "std_type_reaches_pipe_unchanged is a monitor (with C16).",
+            "std_type_reaches_pipe_unchanged is a theorem over the regenerated Pipe.csv and create_pipe mapping, tied by an in-Coq correspondence (nearest-double criterion).",
     "technique": "Coq proof over generated kernels and generated library data + hand model tied by exact correspondence",
     "design": "DESIGN.md 4/C19 + design_notes/C19.md",
 }
